@@ -72,6 +72,7 @@ pub fn single_ops(thorough: bool) -> Vec<Op> {
     WindowFlat(2),
     WindowFlat(3),
     GroupByParityFlat,
+    GroupByParityFlatResume,
     Retry(1),
     Retry(2),
     RetryWhen(EPred::Never),
